@@ -90,6 +90,9 @@ class Slice:
     __slots__ = ('lo', 'hi', 'step', 'key')
 
     def __init__(self, lo, hi, step=None):
+        lo = NONE if lo is None else lo
+        hi = NONE if hi is None else hi
+        step = NONE if step is None else step
         self.lo, self.hi, self.step = lo, hi, step
         self.key = f'S[{vkey(lo)}:{vkey(hi)}:{vkey(step)}]'
 
